@@ -50,6 +50,10 @@ impl Stats {
 
 /// bias: 0 general; 12 receive-maximum; 13 topic alias; 14 packet size; 15 timers; 7 qos2; 6 store/resume; 16 restore
 pub fn generate(seed: u64, n: usize, bias: u64, out: &mut Vec<String>, stats: &mut Stats) {
+    generate_pair(seed, n, bias, 0, out, stats)
+}
+
+pub fn generate_pair(seed: u64, n: usize, bias: u64, pair: u64, out: &mut Vec<String>, stats: &mut Stats) {
     let mut rng = Rng::new(seed ^ 0xC0_77_11 ^ (bias << 32));
     for _ in 0..n {
         let mut r = rng.fork();
@@ -58,19 +62,40 @@ pub fn generate(seed: u64, n: usize, bias: u64, out: &mut Vec<String>, stats: &m
         // version: mostly fixed; undetermined only makes sense for something that can act as a server
         let ver = if role != 0 && r.chance(1, 6) { 0 } else if r.chance(1, 2) { 4 } else { 5 };
         let ver = if bias >= 12 && bias <= 14 && ver == 4 { 5 } else { ver };
-        let abuse = r.chance(1, 10);
+        let ver = if pair == 16 && ver == 0 { 5 } else { ver };
+        let abuse = if pair != 0 { false } else { r.chance(1, 10) };
         stats.cases += 1;
         stats.by_role[role as usize] += 1;
         stats.by_version[match ver { 4 => 0, 5 => 1, _ => 2 }] += 1;
         if abuse { stats.abuse_cases += 1 } else { stats.contract_cases += 1 }
         let (line, nops) = if wide {
             stats.cases_u32 += 1;
-            c32::gen_case(&mut r, role, ver, bias, abuse, &mut stats.inner32)
+            c32::gen_case_pair(&mut r, role, ver, bias, abuse, pair, &mut stats.inner32)
         } else {
-            c16::gen_case(&mut r, role, ver, bias, abuse, &mut stats.inner)
+            c16::gen_case_pair(&mut r, role, ver, bias, abuse, pair, &mut stats.inner)
         };
         stats.total_ops += nops;
         out.push(line);
+    }
+}
+
+/// replay of a paired case: args = kind k_a, then as for replay
+pub fn replay_pair(args: &[String]) -> String {
+    let pair: u64 = args[0].parse().unwrap();
+    let k_a: usize = args[1].parse().unwrap();
+    let mut groups: Vec<Vec<u64>> = vec![Vec::new()];
+    for a in &args[2..] {
+        if a == "|" {
+            groups.push(Vec::new());
+        } else if let Ok(x) = a.parse::<u64>() {
+            groups.last_mut().unwrap().push(x);
+        }
+    }
+    let hdr = groups.remove(0);
+    if hdr[3] == 4 {
+        c32::replay_pair(pair, k_a, &hdr, &c32::ops_from_tokens(&groups))
+    } else {
+        c16::replay_pair(pair, k_a, &hdr, &c16::ops_from_tokens(&groups))
     }
 }
 
